@@ -49,6 +49,12 @@ func Test_apply(t *testing.T) {
 		require.NoError(t, err)
 		assert.Len(t, vcs, 1)
 	})
+	t.Run("pick with max 0 takes nothing", func(t *testing.T) {
+		maximum := 0
+		vcs, err := apply(list, SubmissionRequirement{Rule: "pick", Max: &maximum})
+		require.NoError(t, err)
+		assert.Empty(t, vcs)
+	})
 	t.Run("pick without count, min and max", func(t *testing.T) {
 		vcs, err := apply(list, SubmissionRequirement{Rule: "pick"})
 		require.NoError(t, err)
